@@ -12,6 +12,10 @@
 //!   parameter of the Lean model) and the attribute states the real stack reports; the Lean driver must
 //!   reproduce both the gitoxide selection (model) and git's (spec = transcription of pathspec.c/dir.c).
 //! * `parse` operations tie `gix_pathspec::parse` alone (and git's accept/reject verdict).
+//! * prefix cases (oracle only): the pathspecs are given from a sub-directory — `Search::from_specs(..,
+//!   Some(cwd), root)` against `git -C <cwd> ls-files --full-name -- <specs>` — over index paths whose
+//!   directories differ in case only, with `:(icase)` next to `:(top)`/`../` siblings (so that the common
+//!   prefix shrinks below the cwd) and `..` in the middle of the spec paths.
 use bstr::ByteSlice;
 use hcommon::*;
 use std::path::{Path, PathBuf};
@@ -87,6 +91,12 @@ fn new_stack(root: &Path) -> gix_worktree::Stack {
 
 /// which index paths the real pathspec search selects (`Err` = the specs are refused)
 fn gix_select(repo: &Repo, specs: &[Vec<u8>]) -> Result<Vec<bool>, String> {
+    gix_select_in(repo, None, specs)
+}
+
+/// the same with the pathspecs given from the directory `cwd` (relative to the worktree root)
+fn gix_select_in(repo: &Repo, cwd: Option<&[u8]>, specs: &[Vec<u8>]) -> Result<Vec<bool>, String> {
+    let prefix: Option<PathBuf> = cwd.map(|c| PathBuf::from(c.to_str().expect("utf8 cwd")));
     let r = catch(|| {
         let mut pats = Vec::new();
         for s in specs {
@@ -95,7 +105,7 @@ fn gix_select(repo: &Repo, specs: &[Vec<u8>]) -> Result<Vec<bool>, String> {
                 Err(_) => return Err("err".to_string()),
             }
         }
-        let mut search = match gix_pathspec::Search::from_specs(pats, None, &repo.root) {
+        let mut search = match gix_pathspec::Search::from_specs(pats, prefix.as_deref(), &repo.root) {
             Ok(s) => s,
             Err(_) => return Err("err".to_string()),
         };
@@ -121,8 +131,17 @@ fn gix_select(repo: &Repo, specs: &[Vec<u8>]) -> Result<Vec<bool>, String> {
 }
 
 fn git_select(repo: &Repo, specs: &[Vec<u8>]) -> Result<Vec<bool>, String> {
-    let mut c = git_cmd(&repo.root);
-    c.args(["ls-files", "-z", "--"]);
+    git_select_in(repo, None, specs)
+}
+
+/// `git -C <cwd> ls-files --full-name -- <specs>`
+fn git_select_in(repo: &Repo, cwd: Option<&[u8]>, specs: &[Vec<u8>]) -> Result<Vec<bool>, String> {
+    let dir = match cwd {
+        Some(c) if !c.is_empty() => repo.root.join(c.to_str().expect("utf8 cwd")),
+        _ => repo.root.clone(),
+    };
+    let mut c = git_cmd(&dir);
+    c.args(["ls-files", "-z", "--full-name", "--"]);
     for s in specs {
         use std::os::unix::ffi::OsStrExt;
         c.arg(std::ffi::OsStr::from_bytes(s));
@@ -413,6 +432,195 @@ impl Ctx {
     }
 }
 
+impl Ctx {
+    /// pathspecs given from a sub-directory (a non-empty prefix): the real search against
+    /// `git -C <cwd> ls-files --full-name -- <specs>`. Oracle only — the Lean model covers the empty prefix.
+    fn prefix_case(&mut self, repo: &Repo, cwd: &[u8], specs: &[Vec<u8>], label: Option<&str>) {
+        let spec_s = specs.iter().map(|s| format!("{:?}", s.as_bstr())).collect::<Vec<_>>().join(" ");
+        let gix = gix_select_in(repo, Some(cwd), specs);
+        let git = git_select_in(repo, Some(cwd), specs);
+        self.rep.git_checked(1);
+        let outside = outside_domain_in(specs, Some((cwd, &repo.root)));
+        // the corpus entries of a known finding are judged (and matched against known-findings.txt)
+        let outside = outside.filter(|why| !(label.is_some() && why.starts_with("known finding")));
+        if let Some(why) = outside {
+            self.rep.bucket("prefix:outside-domain");
+            self.rep.outside_domain(&format!(
+                "{why}: cwd {:?} [{spec_s}] gitoxide {} git {}",
+                cwd.as_bstr(),
+                bits(&gix),
+                bits(&git)
+            ));
+            return;
+        }
+        let desc = format!(
+            "prefix cwd={} specs=[{}] paths=[{}] gix={} git={}",
+            hex(cwd),
+            specs.iter().map(|s| hex(s)).collect::<Vec<_>>().join(" "),
+            repo.paths.iter().map(|p| hex(p)).collect::<Vec<_>>().join(" "),
+            bits(&gix),
+            bits(&git)
+        );
+        let nontrivial = matches!(&git, Ok(v) if v.iter().any(|b| *b) && v.iter().any(|b| !*b));
+        self.rep.oracle_only(&desc, nontrivial);
+        self.rep.oracle_checked();
+        self.rep.bucket(match &git {
+            Err(_) => "prefix:git-refuses",
+            Ok(v) if v.iter().all(|b| *b) => "prefix:all",
+            Ok(v) if v.iter().all(|b| !*b) => "prefix:none",
+            Ok(_) => "prefix:some",
+        });
+        if bits(&gix) != bits(&git) {
+            let show = |r: &Result<Vec<bool>, String>| match r {
+                Err(e) => e.clone(),
+                Ok(v) => repo
+                    .paths
+                    .iter()
+                    .zip(v)
+                    .filter(|(_, b)| **b)
+                    .map(|(p, _)| format!("{:?}", p.as_bstr()))
+                    .collect::<Vec<_>>()
+                    .join(" "),
+            };
+            let key = match label {
+                Some(l) => l.to_string(),
+                None => format!("cwd={:?} specs={{{}}} paths={:016x}", cwd.as_bstr(), spec_s, fnv64(&repo.paths.concat())),
+            };
+            self.rep.oracle_failure(
+                &key,
+                &format!(
+                    "from the directory {:?}, pathspecs [{spec_s}] over {} index paths: gitoxide selects [{}], git ls-files selects [{}]",
+                    cwd.as_bstr(),
+                    repo.paths.len(),
+                    show(&gix),
+                    show(&git)
+                ),
+                &desc,
+            );
+        }
+    }
+}
+
+/// index paths for the scenarios with a prefix: directories that differ in case only
+const PREFIX_POOL: &[&str] = &[
+    "x", "y", "X", "bar", "foo/bar", "FOO/bar", "Foo/bar", "foo/x", "FOO/x", "foo/sub/bar", "foo/SUB/bar", "FOO/sub/bar",
+    "a/x", "a/b/x", "a/B/x", "a/b/c/x", "a/b/C/x", "a/c/x", "A/b/x", "a/b/bar", "a/B/bar", "b/x", "B/x", "a/bx", "a/b/x.c",
+    "a/B/X.c",
+];
+
+fn gen_prefix_scenario(r: &mut Rng) -> (Scenario, Vec<u8>) {
+    let mut scn = Scenario::default();
+    let n = 6 + r.usize(12);
+    for _ in 0..n {
+        let p = r.pick(PREFIX_POOL).as_bytes().to_vec();
+        let conflict = scn.paths.iter().any(|q| {
+            q == &p
+                || (q.len() > p.len() && q.starts_with(&p) && q[p.len()] == b'/')
+                || (p.len() > q.len() && p.starts_with(q) && p[q.len()] == b'/')
+        });
+        if !conflict {
+            scn.paths.push(p);
+        }
+    }
+    // the cwd: a directory of one of the paths
+    let mut dirs: Vec<Vec<u8>> = Vec::new();
+    for p in &scn.paths {
+        let mut i = 0;
+        while let Some(j) = p[i..].iter().position(|b| *b == b'/') {
+            let d = p[..i + j].to_vec();
+            if !dirs.contains(&d) {
+                dirs.push(d);
+            }
+            i += j + 1;
+        }
+    }
+    let cwd = if dirs.is_empty() { b"a".to_vec() } else { r.pick(&dirs).clone() };
+    if !scn.paths.iter().any(|p| p.starts_with(&cwd) && p.get(cwd.len()) == Some(&b'/')) {
+        let mut p = cwd.clone();
+        p.extend_from_slice(b"/x");
+        scn.paths.push(p);
+    }
+    (scn, cwd)
+}
+
+/// a pathspec as one types it inside `cwd`: relative names, `..` at the front and IN THE MIDDLE,
+/// `:(icase)`, `:(top)`, excludes — so that the common prefix of a list shrinks below the cwd
+fn gen_prefix_spec(r: &mut Rng, rep: &mut Report, cwd: &[u8], paths: &[Vec<u8>]) -> Vec<u8> {
+    let mut s: Vec<u8> = Vec::new();
+    let magic = r.below(12);
+    let top = matches!(magic, 3 | 4 | 9);
+    match magic {
+        0..=2 => rep.bucket("pspec:icase"),
+        3 => rep.bucket("pspec:top"),
+        4 => rep.bucket("pspec:icase+top"),
+        5 => rep.bucket("pspec:exclude"),
+        6 => rep.bucket("pspec:icase+glob"),
+        9 => rep.bucket("pspec:short-top"),
+        10 => rep.bucket("pspec:icase+exclude"),
+        _ => rep.bucket("pspec:plain"),
+    }
+    s.extend_from_slice(match magic {
+        0..=2 => &b":(icase)"[..],
+        3 => b":(top)",
+        4 => b":(icase,top)",
+        5 => b":!",
+        6 => b":(icase,glob)",
+        9 => b":/",
+        10 => b":(icase,exclude)",
+        _ => b"",
+    });
+    // the target: an index path, relative to the cwd (or to the root for `top`)
+    let target = r.pick(paths).clone();
+    let mut rel: Vec<Vec<u8>> = Vec::new();
+    let tcomps: Vec<&[u8]> = target.split(|b| *b == b'/').collect();
+    let ccomps: Vec<&[u8]> = if top { Vec::new() } else { cwd.split(|b| *b == b'/').collect() };
+    let common = tcomps.iter().zip(ccomps.iter()).take_while(|(a, b)| a == b).count();
+    let common = if r.chance(1, 4) { r.usize(common + 1) } else { common };
+    for _ in common..ccomps.len() {
+        rel.push(b"..".to_vec());
+    }
+    for c in &tcomps[common..] {
+        rel.push(c.to_vec());
+    }
+    // detours: a named component followed by `..`, in the middle (git takes `top` paths verbatim)
+    for _ in 0..r.usize(3) {
+        if !top && r.chance(1, 2) {
+            let at = r.usize(rel.len() + 1).min(rel.len().saturating_sub(1));
+            let name = r.pick(&[&b"c"[..], b"b", b"B", b"sub", b"zz", b"."]).to_vec();
+            let dot = name == b".";
+            rel.insert(at, name);
+            if !dot {
+                rel.insert(at + 1, b"..".to_vec());
+            }
+        }
+    }
+    // case changes (what `icase` is for) and truncation to a directory
+    if r.chance(1, 2) {
+        for c in rel.iter_mut() {
+            if c != b".." && r.chance(1, 2) {
+                for b in c.iter_mut() {
+                    if r.chance(1, 2) {
+                        *b = if b.is_ascii_lowercase() { b.to_ascii_uppercase() } else { b.to_ascii_lowercase() };
+                    }
+                }
+            }
+        }
+    }
+    if rel.len() > 1 && r.chance(1, 5) {
+        rel.pop();
+    }
+    if magic == 6 && r.chance(1, 2) {
+        if let Some(l) = rel.last_mut() {
+            *l = b"*".to_vec();
+        }
+    }
+    s.extend_from_slice(&rel.join(&b"/"[..]));
+    if r.chance(1, 8) {
+        s.push(b'/');
+    }
+    s
+}
+
 /// Inputs on which `git ls-files` itself is not a usable oracle, or which the theorems exclude:
 /// * an exclude pathspec that does not start with the common directory prefix of the positive ones:
 ///   git's `match_pathspec_item` looks at `item->match + prefix` only, i.e. ignores the first bytes of
@@ -421,6 +629,13 @@ impl Ctx {
 /// * `:(top)` pathspecs whose path part is not normalised (`a/.`, `a//b`): git takes them verbatim,
 ///   gitoxide normalises them.
 fn outside_domain(specs: &[Vec<u8>]) -> Option<&'static str> {
+    outside_domain_in(specs, None)
+}
+
+/// `cwd`: the directory (relative to the worktree root) the pathspecs are given from; git's `match`
+/// string of an item is then the normalised `cwd/path`, and an `:(icase)` item still takes part in
+/// git's common prefix with the bytes of the cwd prefix it kept (`item->prefix`)
+fn outside_domain_in(specs: &[Vec<u8>], cwd: Option<(&[u8], &Path)>) -> Option<&'static str> {
     let parsed: Vec<gix_pathspec::Pattern> = specs
         .iter()
         .filter_map(|s| gix_pathspec::parse(s, Default::default()).ok())
@@ -429,6 +644,52 @@ fn outside_domain(specs: &[Vec<u8>]) -> Option<&'static str> {
         return None;
     }
     use gix_pathspec::MagicSignature as M;
+    // what git matches against, and how many leading bytes of it are the cwd prefix
+    let mut normalized: Vec<(Vec<u8>, usize)> = Vec::new();
+    if let Some((c, _)) = cwd {
+        if !c.is_empty() && parsed.iter().all(|p| p.signature.contains(M::EXCLUDE)) {
+            return Some("only exclude pathspecs, given from a sub-directory: `git ls-files` (PATHSPEC_PREFER_CWD) adds the cwd as the implicit positive pathspec, gix_pathspec::Search has no such policy (it selects repository-wide)");
+        }
+    }
+    if let Some((c, root)) = cwd {
+        for p in &parsed {
+            let mut q = p.clone();
+            if q.normalize(Path::new(c.to_str().expect("utf8 cwd")), root).is_err() {
+                return None;
+            }
+            // known finding: an `:(icase)` pathspec that normalizes to (what is left of) the cwd itself —
+            // `sub/..` or `..` — has no slash behind its prefix, and normalize() then takes the prefix to be
+            // one component shorter (pinned by gix-pathspec's test normalize::removes_relative_path_components)
+            if q.signature.contains(M::ICASE) && !q.signature.contains(M::TOP) && !q.is_nil() {
+                let (mut depth, mut lowest) = (0isize, 0isize);
+                for comp in p.path().split(|b| *b == b'/') {
+                    if comp == b".." {
+                        depth -= 1;
+                        lowest = lowest.min(depth);
+                    } else if !comp.is_empty() && comp != b"." {
+                        depth += 1;
+                    }
+                }
+                let cwd_comps = c.split(|b| *b == b'/').filter(|x| !x.is_empty()).count() as isize;
+                let remaining = cwd_comps + lowest;
+                let path_comps = q.path().split(|b| *b == b'/').filter(|x| !x.is_empty()).count() as isize;
+                if remaining > 0 && path_comps == remaining {
+                    return Some("known finding: an :(icase) pathspec that normalizes to the cwd prefix itself loses the last prefix component (compared case-insensitively by gitoxide, case-sensitively by git)");
+                }
+            }
+            let mut m = if q.is_nil() { Vec::new() } else { q.path().to_vec() };
+            if q.signature.contains(M::MUST_BE_DIR) && !m.is_empty() {
+                m.push(b'/');
+            }
+            // git's `item->prefix` counts the slash behind the prefix directory
+            let pl = if q.is_nil() || q.prefix_directory().is_empty() {
+                0
+            } else {
+                q.prefix_directory().len() + 1
+            };
+            normalized.push((m, pl));
+        }
+    }
     for p in &parsed {
         if p.signature.contains(M::TOP) {
             let path = p.path();
@@ -443,22 +704,30 @@ fn outside_domain(specs: &[Vec<u8>]) -> Option<&'static str> {
         }
     }
     // dir.c: common_prefix_len()
-    let item_match = |p: &gix_pathspec::Pattern| {
+    let item_match = |n: usize| {
+        if cwd.is_some() {
+            return normalized[n].0.clone();
+        }
+        let p = &parsed[n];
         let mut m = p.path().to_vec();
         if p.signature.contains(M::MUST_BE_DIR) {
             m.push(b'/');
         }
         m
     };
-    let first = item_match(&parsed[0]);
+    let first = item_match(0);
     let mut max = 0usize;
     for (n, p) in parsed.iter().enumerate() {
         if p.signature.contains(M::EXCLUDE) {
             continue;
         }
-        let m = item_match(p);
+        let m = item_match(n);
         let item_len = if p.signature.contains(M::ICASE) {
-            0
+            if cwd.is_some() {
+                normalized[n].1.min(m.len())
+            } else {
+                0
+            }
         } else if p.search_mode == gix_pathspec::SearchMode::Literal {
             m.len()
         } else {
@@ -485,7 +754,8 @@ fn outside_domain(specs: &[Vec<u8>]) -> Option<&'static str> {
     if max > 0
         && parsed
             .iter()
-            .any(|p| p.signature.contains(M::EXCLUDE) && !item_match(p).starts_with(&first[..max]))
+            .enumerate()
+            .any(|(n, p)| p.signature.contains(M::EXCLUDE) && !item_match(n).starts_with(&first[..max]))
     {
         return Some("exclude pathspec outside git's common prefix (git compares only what follows the prefix length, or reads past the end of the pattern)");
     }
@@ -701,6 +971,18 @@ fn gen_scenario(r: &mut Rng, rep: &mut Report) -> Scenario {
     scn
 }
 
+/// `prefix cwd=<hex> specs=[<hex> ..] paths=[<hex> ..] gix=.. git=..` (the description of a prefix case)
+fn prefix_of_op(op: &str) -> Option<(Scenario, Vec<u8>, Vec<Vec<u8>>)> {
+    let rest = op.strip_prefix("prefix cwd=")?;
+    let (cwd, rest) = rest.split_once(" specs=[")?;
+    let (specs, rest) = rest.split_once("] paths=[")?;
+    let (paths, _) = rest.split_once(']')?;
+    let list = |s: &str| s.split(' ').filter(|x| !x.is_empty()).map(unhex).collect::<Option<Vec<_>>>();
+    let mut scn = Scenario::default();
+    scn.paths = list(paths)?;
+    Some((scn, unhex(cwd)?, list(specs)?))
+}
+
 fn scenario_of_op(op: &str) -> Option<(Scenario, Vec<Vec<u8>>)> {
     let a: Vec<&str> = op.split(' ').collect();
     if a.first() != Some(&"select") {
@@ -806,6 +1088,10 @@ fn main() {
                 if let Some(spec) = unhex(h) {
                     cx.parse_case(&spec);
                 }
+            } else if let Some((scn, cwd, specs)) = prefix_of_op(&op) {
+                let repo = cx.repo(&scn);
+                std::fs::create_dir_all(repo.root.join(cwd.to_str().unwrap())).unwrap();
+                cx.prefix_case(&repo, &cwd, &specs, None);
             } else if let Some((scn, specs)) = scenario_of_op(&op) {
                 let repo = cx.repo(&scn);
                 cx.select_case(&repo, &specs, None);
@@ -850,6 +1136,64 @@ fn main() {
                 }
             }
             cx.select_case(&repo, &specs, None);
+        }
+        let _ = std::fs::remove_dir_all(&repo.root);
+    }
+    // pathspecs given from a sub-directory (a non-empty prefix)
+    {
+        let paths = |ps: &[&str]| ps.iter().map(|p| p.as_bytes().to_vec()).collect::<Vec<_>>();
+        let scn = Scenario {
+            paths: paths(&["x", "y", "foo/bar", "FOO/bar", "a/b/x", "a/B/x", "a/x", "a/c/x", "b/x"]),
+            attr_files: vec![],
+        };
+        let repo = cx.repo(&scn);
+        for d in ["FOO", "foo", "a/b", "a/B", "a/c", "a", "b"] {
+            std::fs::create_dir_all(repo.root.join(d)).unwrap();
+        }
+        let lists: Vec<(&str, Vec<&str>)> = vec![
+            ("FOO", vec![":(icase)bar", ":(top)x"]),
+            ("FOO", vec![":(icase)bar", "../y"]),
+            ("FOO", vec![":(icase)bar"]),
+            ("FOO", vec![":(icase)BAR", ":/x"]),
+            ("a/b", vec![":(icase)c/../x"]),
+            ("a/b", vec![":(icase)c/../../b/x"]),
+            ("a/b", vec![":(icase)c/../../B/x"]),
+            ("a/b", vec![":(icase)../c/../b/X"]),
+            ("a/b", vec![":(icase)X", ":(top)b/x"]),
+            ("a/b", vec!["c/../x"]),
+            ("a/b", vec!["../../x", "x"]),
+            ("a/b", vec![":(icase)../../X"]),
+            ("a", vec![":(icase)b/x", ":(top)y"]),
+            ("a", vec![":(icase)B", "../b"]),
+            ("a/c", vec![":(icase)../B/./x"]),
+            ("b", vec![":(icase,top)A/b/X"]),
+            ("b", vec!["../a/../b/x"]),
+            ("a/b", vec!["../../.."]),
+            // known finding (see known-findings.txt)
+            ("a/b", vec![":(icase)sub/.."]),
+            ("a/b", vec![":(icase).."]),
+        ];
+        for (cwd, l) in lists {
+            let specs: Vec<Vec<u8>> = l.iter().map(|s| s.as_bytes().to_vec()).collect();
+            let key = format!("corpus:prefix {cwd} {{{}}}", l.join(" "));
+            cx.prefix_case(&repo, cwd.as_bytes(), &specs, Some(&key));
+        }
+        let _ = std::fs::remove_dir_all(&repo.root);
+    }
+    let n = args.budget(25, 250);
+    for _ in 0..n {
+        let (scn, cwd) = gen_prefix_scenario(&mut r);
+        let repo = cx.repo(&scn);
+        std::fs::create_dir_all(repo.root.join(cwd.to_str().unwrap())).unwrap();
+        cx.rep.bucket("scenario:prefix");
+        for _ in 0..8 {
+            let ns = match r.below(10) {
+                0..=3 => 1,
+                4..=7 => 2,
+                _ => 3,
+            };
+            let specs: Vec<Vec<u8>> = (0..ns).map(|_| gen_prefix_spec(&mut r, &mut cx.rep, &cwd, &repo.paths)).collect();
+            cx.prefix_case(&repo, &cwd, &specs, None);
         }
         let _ = std::fs::remove_dir_all(&repo.root);
     }
